@@ -1039,6 +1039,21 @@ def m_fold(c):
         return
     elem = it.elem if it.elem is not None and not it.elem.is_bot() else Top()
     acc = init
+    rem = it.remaining
+    if isinstance(rem, Int) and rem.is_const() and rem.lo <= 8:
+        # exact: apply the closure rem times (elements by position when known)
+        for i in range(rem.lo):
+            el = elem
+            if it.pos is not None and it.cells:
+                el = it.cells.get(it.pos + i, elem)
+            cell = new_tmp(c, c.st, el, ("foldelem", i))
+            res = _closure_result_pure(c, clo, [(acc, None), (Ref(cell, ()) if it.extra != "val" else el, None)])
+            if res is None:
+                c.ret_top()
+                return
+            acc = res
+        c.ret(acc)
+        return
     for _ in range(8):
         cell = new_tmp(c, c.st, elem, "foldelem")
         res = _closure_result_pure(c, clo, [(acc, None), (Ref(cell, ()) if it.extra != "val" else elem, None)])
